@@ -152,6 +152,13 @@ theorem wf_of_wf_append (n org : Name) (hne : org ≠ []) (h : WfName (n ++ org)
     rw [List.dropLast_append_of_ne_nil hne]
     exact List.mem_append_left _ (List.dropLast_subset n hl)
 
+/-- `self[: len(self) - k]` for `k ≠ 0`, whichever way `sliceToNeg` spells the `k = 0` case -/
+theorem sliceToNeg_pos (n : Name) (k : Nat) (hk : k ≠ 0) : sliceToNeg n k = n.take (n.length - k) := by
+  unfold sliceToNeg
+  split
+  · rename_i h0; exact absurd h0 hk
+  · rfl
+
 theorem relativize_append (n org : Name) (ho : isAbs org = true) (h : WfName (n ++ org)) :
     relativize (n ++ org) org = .ok n := by
   have hne : org ≠ [] := by intro h'; simp [h', isAbs] at ho
@@ -159,7 +166,7 @@ theorem relativize_append (n org : Name) (ho : isAbs org = true) (h : WfName (n 
   rw [isSubdomain_append n org ho]
   have hl : org.length ≠ 0 := by
     intro h0; exact hne (List.length_eq_zero_iff.mp h0)
-  simp only [if_true, sliceToNeg, hl, if_false, List.length_append, Nat.add_sub_cancel]
+  simp only [if_true, sliceToNeg_pos _ _ hl, List.length_append, Nat.add_sub_cancel]
   rw [List.take_left' rfl]
   exact validate_of_wf n (wf_of_wf_append n org hne h)
 
